@@ -225,24 +225,28 @@ impl Alphabet {
         if max_n == 0 {
             return root;
         }
-        // tasks: all valid prefixes of length 1 and (if max_n>=2) 2; a task of length < split depth visits only itself
-        let split = max_n.min(2);
+        // tasks: all valid prefixes of length <= split; a prefix shorter than `split` is visited alone,
+        // a prefix of length `split` is visited together with its whole subtree.
+        let split = max_n.min(3);
         let mut tasks: Vec<Vec<usize>> = Vec::new();
-        for i in 0..n {
-            if !self.ok_next(&[], i) {
-                continue;
+        fn gen_tasks(a: &Alphabet, cur: &mut Vec<usize>, split: usize, tasks: &mut Vec<Vec<usize>>) {
+            if !cur.is_empty() {
+                tasks.push(cur.clone());
             }
-            if split == 1 {
-                tasks.push(vec![i]);
-            } else {
-                tasks.push(vec![i]); // visited alone (marker: len < split)
-                for j in i..n {
-                    if self.ok_next(&[i], j) {
-                        tasks.push(vec![i, j]);
-                    }
+            if cur.len() >= split {
+                return;
+            }
+            let start = *cur.last().unwrap_or(&0);
+            for j in start..a.evs.len() {
+                if a.ok_next(cur, j) {
+                    cur.push(j);
+                    gen_tasks(a, cur, split, tasks);
+                    cur.pop();
                 }
             }
         }
+        let _ = n;
+        gen_tasks(self, &mut Vec::new(), split, &mut tasks);
         let part = tasks
             .into_par_iter()
             .map(|pre| {
